@@ -102,6 +102,127 @@ MUTANTS = [
          old="            && entry.1 == span\n", new="            && entry.1.start == span.start\n", expect="V-debuginfo::DebugInfo::push"),
     dict(name="tupleslice_escapes_parent", kind="break", prop="C14", units=["V-strslice"], file="crates/runtime/src/types/tuple.rs",
          old="if new_bounds.end <= self.bounds.end && self.data.get(new_bounds.clone()).is_some() {", new="if self.data.get(new_bounds.clone()).is_some() {", expect="V-strslice::TupleSlice::with_bounds"),
+    # ---- V-codegen
+    dict(name="codegen_logic_and_or_swapped", kind="break", prop="C01", units=["V-codegen"], file="crates/bytecode/src/compiler.rs",
+         old="            AstBinaryOp::And => Op::JumpIfFalse,\n            AstBinaryOp::Or => Op::JumpIfTrue,", new="            AstBinaryOp::And => Op::JumpIfTrue,\n            AstBinaryOp::Or => Op::JumpIfFalse,", expect="V-codegen::Compiler::compile_logic_op::"),
+    dict(name="codegen_logic_rhs_any_register", kind="break", prop="C01", units=["V-codegen"], file="crates/bytecode/src/compiler.rs",
+         old="self.compile_node_with_jump_offset(rhs, ctx.with_fixed_register(register))?;", new="self.compile_node_with_jump_offset(rhs, ctx.with_any_register())?;", expect="V-codegen::Compiler::compile_logic_op::"),
+    dict(name="codegen_logic_temp_not_released", kind="break", prop="C01", units=["V-codegen"], file="crates/bytecode/src/compiler.rs",
+         old="""        if result.register.is_none() {
+            self.pop_register()?;
+        }
+
+        Ok(result)
+    }
+
+    fn compile_string(""", new="""        Ok(result)
+    }
+
+    fn compile_string(""", expect="V-codegen::Compiler::compile_logic_op::"),
+    dict(name="codegen_loop_until_not_negated", kind="break", prop="C01", units=["V-codegen"], file="crates/bytecode/src/compiler.rs",
+         old="""            let op = if negate_condition {
+                JumpIfTrue
+            } else {
+                JumpIfFalse
+            };""", new="""            let op = if negate_condition {
+                JumpIfFalse
+            } else {
+                JumpIfTrue
+            };""", expect="V-codegen::Compiler::compile_loop::condition_at_the_top_exit_after_the_back_jump"),
+    dict(name="codegen_loop_start_after_condition", kind="break", prop="C01", units=["V-codegen"], file="crates/bytecode/src/compiler.rs",
+         old="self.push_jump_back_op(JumpBack, &[], loop_start_ip)?;\n\n        if body_result.is_temporary {\n            self.pop_register()?;\n        }\n\n        self.pop_loop_and_update_placeholders()?;\n\n        Ok(result)", new="self.push_jump_back_op(JumpBack, &[], loop_start_ip + 1)?;\n\n        if body_result.is_temporary {\n            self.pop_register()?;\n        }\n\n        self.pop_loop_and_update_placeholders()?;\n\n        Ok(result)", expect="V-codegen::Compiler::compile_loop::"),
+    dict(name="codegen_loop_no_initial_null", kind="break", prop="C01", units=["V-codegen"], file="crates/bytecode/src/compiler.rs",
+         old="""            if condition.is_some() {
+                // If there's a condition, then the result should be set to Null in case
+                // there are no loop iterations
+                self.push_op(SetNull, &[result_register]);
+            }""", new="", expect="V-codegen::Compiler::compile_loop::"),
+    dict(name="codegen_switch_end_jump_for_else_too", kind="break", prop="C01", units=["V-codegen"], file="crates/bytecode/src/compiler.rs",
+         old="""            if condition.is_some() {
+                self.push_op_without_span(Op::Jump, &[]);
+                result_jump_placeholders.push(self.push_offset_placeholder())
+            }""", new="""            {
+                self.push_op_without_span(Op::Jump, &[]);
+                result_jump_placeholders.push(self.push_offset_placeholder())
+            }""", expect="V-codegen::Compiler::compile_switch::"),
+    dict(name="codegen_switch_condition_jump_patched_before_arm_end_jump", kind="break", prop="C01", units=["V-codegen"], file="crates/bytecode/src/compiler.rs",
+         old="""            self.compile_node(*expression, switch_arm_context)?;
+
+            // Add a jump instruction if this anything other than an `else` arm
+            if condition.is_some() {
+                self.push_op_without_span(Op::Jump, &[]);
+                result_jump_placeholders.push(self.push_offset_placeholder())
+            }
+
+            if let Some(jump_placeholder) = arm_end_jump_placeholder {
+                self.update_offset_placeholder(jump_placeholder)?;
+            }""", new="""            self.compile_node(*expression, switch_arm_context)?;
+
+            if let Some(jump_placeholder) = arm_end_jump_placeholder {
+                self.update_offset_placeholder(jump_placeholder)?;
+            }
+
+            // Add a jump instruction if this anything other than an `else` arm
+            if condition.is_some() {
+                self.push_op_without_span(Op::Jump, &[]);
+                result_jump_placeholders.push(self.push_offset_placeholder())
+            }""", expect="V-codegen::Compiler::compile_switch::"),
+    dict(name="codegen_switch_null_even_after_else", kind="break", prop="C01", units=["V-codegen"], file="crates/bytecode/src/compiler.rs",
+         old="""            // If the last arm is `else`, then setting to Null isn't necessary
+            if !last_arm_is_else {
+                self.push_op(Op::SetNull, &[result_register]);
+            }""", new="""            {
+                self.push_op(Op::SetNull, &[result_register]);
+            }""", expect="V-codegen::Compiler::compile_switch::null_when_no_arm_runs"),
+    dict(name="codegen_switch_quiet_pop_after_placeholder", kind="quiet", prop="C01", units=["V-codegen"], file="crates/bytecode/src/compiler.rs",
+         old="""                if condition_register.is_temporary {
+                    self.pop_register()?;
+                }
+
+                Some(self.push_offset_placeholder())""", new="""                let placeholder = self.push_offset_placeholder();
+
+                if condition_register.is_temporary {
+                    self.pop_register()?;
+                }
+
+                Some(placeholder)"""),
+    dict(name="codegen_assert_type_ignores_setting", kind="break", prop="C16", units=["V-codegen"], file="crates/bytecode/src/compiler.rs",
+         old="                if self.settings.enable_type_checks {\n                    if let Some(span_node_index) = span {", new="                if true {\n                    if let Some(span_node_index) = span {", expect="V-codegen::Compiler::compile_assert_type::nothing_emitted_when_checks_are_disabled"),
+    dict(name="codegen_assert_type_optional_swapped", kind="break", prop="C16", units=["V-codegen"], file="crates/bytecode/src/compiler.rs",
+         old="""                    let op = if *allow_null {
+                        Op::AssertOptionalType
+                    } else {
+                        Op::AssertType
+                    };""", new="""                    let op = if *allow_null {
+                        Op::AssertType
+                    } else {
+                        Op::AssertOptionalType
+                    };""", expect="V-codegen::Compiler::compile_assert_type::assertion_emitted_when_checks_are_enabled"),
+    dict(name="codegen_assert_type_span_left_on_the_stack", kind="break", prop="C12", units=["V-codegen"], file="crates/bytecode/src/compiler.rs",
+         old="""                    if span.is_some() {
+                        self.pop_span();
+                    }
+                }
+                Ok(())""", new="""                }
+                Ok(())""", expect="V-codegen::Compiler::compile_assert_type::frame_state_restored"),
+    dict(name="codegen_check_type_guarded_by_setting", kind="break", prop="C16", units=["V-codegen"], file="crates/bytecode/src/compiler.rs",
+         old="""                self.push_op(op, &[value_register]);
+                self.push_var_u32((*type_index).into());
+
+                let jump_placeholder = self.push_offset_placeholder();""", new="""                if self.settings.enable_type_checks {
+                    self.push_op(op, &[value_register]);
+                    self.push_var_u32((*type_index).into());
+                }
+
+                let jump_placeholder = self.push_offset_placeholder();""", expect="V-codegen::Compiler::compile_check_type::"),
+    dict(name="codegen_check_type_without_span", kind="break", prop="C12", units=["V-codegen"], file="crates/bytecode/src/compiler.rs",
+         old="""                self.push_span(type_node, ctx.ast);
+
+                let op = if *allow_null {
+                    Op::CheckOptionalType""", new="""                let op = if *allow_null {
+                    Op::CheckOptionalType""", expect="V-codegen::Compiler::compile_check_type::"),
+    dict(name="codegen_assign_result_any_not_temporary", kind="break", prop="C01", units=["V-codegen"], file="crates/bytecode/src/compiler.rs",
+         old="ResultRegister::Any => CompileNodeOutput::with_temporary(self.push_register()?),", new="ResultRegister::Any => CompileNodeOutput::with_assigned(self.push_register()?),", expect="V-codegen::Compiler::assign_result_register::"),
     dict(name="bytecursor_next_back_front_byte", kind="break", prop="C13", units=["V-bytecursor"], file="crates/runtime/src/types/iterator.rs",
          old="let result = (self.bytes)[self.end];", new="let result = (self.bytes)[self.index];", expect="V-bytecursor::ByteIterator::next_back::yields_back_position"),
     dict(name="bytecursor_next_reads_after_advance", kind="break", prop="C13", units=["V-bytecursor"], file="crates/runtime/src/types/iterator.rs",
